@@ -1,15 +1,14 @@
 (* C15 - Events, promises and notifiers deliver exactly the right calls. Statements only.
-   Proved for all schedules: the WithMaxTriggerCount clause at hook level (a), the promise clause (b), the notifier
-   clause (c). NOT proved (full statements kept as Prop definitions in ProofsEvent.v, covered by the correspondence
-   check only): trigger_exactly_once_full_statement, link_full_statement, max_trigger_count_event_full_statement. *)
+   Proved for all schedules: (a) events: exactly-once per Trigger with arguments and order, LinkTo, WithMaxTriggerCount at
+   hook and at event level; (b) the promise clause; (c) the notifier clause. *)
 From Coq Require Import NArith List Permutation PeanoNat.
-From Verif.C15_Events Require Import Model ModelPromise ModelNotifier ProofsEvent ProofsPromise ProofsNotifier.
+From Verif.C15_Events Require Import Model ModelPromise ModelNotifier ProofsEvent ProofsEvent2 ProofsWalk ProofsLink ProofsPromise ProofsNotifier.
 Import ListNotations.
 
 (* (a) WithMaxTriggerCount(n) on a hook: under ANY interleaving of the atomic steps of any number of concurrent
    Trigger/Hook/Unhook/LinkTo callers, invocations so far + walkers that passed the hook's count test and are about
    to invoke it = min(n, number of triggers that reached the hook) (all of them when there is no limit). *)
-Theorem C15_max_trigger_count_partial : forall acts n h, let s := run init acts in
+Theorem C15_max_trigger_count_hook : forall acts n h, let s := run init acts in
   nth_error (hooks s) n = Some h ->
   N.of_nat (length (calls_of s n) + pend n s) = if N.eqb (h_max h) 0 then h_cnt h else N.min (h_cnt h) (h_max h).
 Proof. exact max_trigger_count_hook. Qed.
@@ -19,6 +18,59 @@ Theorem C15_max_trigger_count_quiescent : forall acts n h, let s := run init act
   quiescent s -> nth_error (hooks s) n = Some h -> h_max h <> 0%N ->
   N.of_nat (length (calls_of s n)) = N.min (h_max h) (h_cnt h).
 Proof. exact max_trigger_count_hook_quiescent. Qed.
+
+(* (a) WithMaxTriggerCount(n) on an event: under ANY interleaving, at every reachable state, the event's atomic counter equals
+   the number of Trigger calls on it (direct ones and those made by link hooks) and the number of those calls that passed
+   the count test ("fired": they walk the hooks) is min(n, number of Trigger calls) (all of them when there is no limit). *)
+Theorem C15_max_trigger_count_event : forall acts e ev, let s := run init acts in
+  nth_error (events s) e = Some ev ->
+  N.of_nat (length (trigs_of s e)) = e_cnt ev /\
+  N.of_nat (length (accepted s e)) = if N.eqb (e_max ev) 0 then e_cnt ev else N.min (e_cnt ev) (e_max ev).
+Proof. exact max_trigger_count_event. Qed.
+
+(* (a) exactly once, arguments, order: for ANY interleaving of the atomic steps of concurrent Trigger / Hook / Unhook / LinkTo
+   callers (nested triggers through links included): if Trigger number k (accepted by the event-level limit) has finished,
+   then every hook of its event that was attached before k began (h_born < t_t0) and is still attached has been invoked
+   by k exactly once, with k's argument, and all invocations / pool submissions made by k are in attachment order.
+   (Applied to the prefix of the schedule at which k finishes this is "not unhooked before its end";
+   C15_finished_calls_stable: k invokes nothing after it has finished.) *)
+Theorem C15_trigger_exactly_once : forall acts k tr n h, let s := run init acts in
+  nth_error (trigs s) k = Some tr -> t_rej tr = false -> finished s k ->
+  nth_error (hooks s) n = Some h -> h_ev h = t_ev tr -> h_born h < t_t0 tr -> h_in h = true ->
+  (exists i, nth_error (calls_by s k) i = Some (mkCall n (t_arg tr) k)) /\
+  length (filter (fun c => Nat.eqb (c_hook c) n) (calls_by s k)) = 1 /\
+  (forall i j c1 c2, i < j -> nth_error (calls_by s k) i = Some c1 -> nth_error (calls_by s k) j = Some c2 -> c_hook c1 < c_hook c2).
+Proof. exact trigger_exactly_once. Qed.
+
+(* ... at any moment, finished or not: no hook is invoked twice by the same Trigger *)
+Theorem C15_trigger_at_most_once : forall acts k n, let s := run init acts in
+  length (filter (fun c => Nat.eqb (c_hook c) n) (calls_by s k)) <= 1.
+Proof. exact trigger_at_most_once. Qed.
+
+(* ... every invocation is made by an accepted Trigger of the hook's own event, with that Trigger's argument *)
+Theorem C15_calls_sound : forall acts c, let s := run init acts in In c (calls s) ->
+  exists h tr, nth_error (hooks s) (c_hook c) = Some h /\ nth_error (trigs s) (c_tid c) = Some tr /\
+               t_rej tr = false /\ h_ev h = t_ev tr /\ c_arg c = t_arg tr.
+Proof. exact calls_sound. Qed.
+
+(* ... and a Trigger that has finished never invokes anything later *)
+Theorem C15_finished_calls_stable : forall acts1 acts2 k, k < length (trigs (run init acts1)) -> finished (run init acts1) k ->
+  calls_by (run init (acts1 ++ acts2)) k = calls_by (run init acts1) k /\ finished (run init (acts1 ++ acts2)) k.
+Proof. exact finished_calls_stable. Qed.
+
+(* (a) LinkTo: a hook that was unhooked before Trigger k began is never invoked by k. LinkTo's first step unhooks the link
+   hook from the former target: triggers of the former target that begin afterwards no longer fire the linked event. *)
+Theorem C15_link_no_fire_after_unhook : forall acts c h tr, let s := run init acts in
+  In c (calls s) -> nth_error (hooks s) (c_hook c) = Some h -> nth_error (trigs s) (c_tid c) = Some tr ->
+  h_in h = true \/ t_t0 tr < h_died h.
+Proof. exact link_no_fire_after_unhook. Qed.
+
+(* ... an event has at most one attached link hook at any time: the one recorded in its link field (none while a LinkTo
+   is between its two steps); with C15_trigger_exactly_once applied to that hook: exactly once per trigger of the current target *)
+Theorem C15_link_unique : forall acts n h e, let s := run init acts in
+  nth_error (hooks s) n = Some h -> h_kind h = KLink e -> h_in h = true ->
+  exists ev, nth_error (events s) e = Some ev /\ e_link ev = Some n /\ e_lock ev = false.
+Proof. exact link_unique. Qed.
 
 (* (b) promise.Event: every callback identity is in exactly one place (registered / pending in one thread / called once /
    unsubscribed before the trigger), for every interleaving of Trigger, OnTrigger, unsubscribe and the callback calls *)
@@ -65,14 +117,37 @@ Proof. exact notifier_refuted_shared_entry_mid. Qed.
 (* non-vacuity *)
 Example C15_ex_limit : quiescent (run init ex_limit) /\ map h_cnt (hooks (run init ex_limit)) = [3%N; 3%N].
 Proof. split; [exact ex_limit_quiescent | vm_compute; reflexivity]. Qed.
+Example C15_ex_evlimit : let s := run init ex_evlimit in
+  map t_rej (trigs s) = [false; false; true] /\ map e_cnt (events s) = [3%N] /\ map e_max (events s) = [2%N].
+Proof. vm_compute. auto. Qed.
+Example C15_ex_walk : let s := run init ex_walk in       (* hypotheses of C15_trigger_exactly_once for k = 0, n = 3 *)
+  nth_error (trigs s) 0 = Some (mkTrig 0 7 5 false None) /\ finished s 0 /\
+  option_map (fun h => (h_ev h, h_born h, h_in h)) (nth_error (hooks s) 3) = Some (0, 4, true) /\
+  map (fun h => (h_in h, h_frozen h)) (hooks s) = [(true, None); (false, Some 2); (false, Some 3); (true, None); (true, None)] /\
+  map c_hook (calls_by s 0) = [0; 1; 2; 3; 4].
+Proof. exact ex_walk_hyps. Qed.
+Example C15_ex_link : let s := run init ex_link in
+  map (fun c => (c_hook c, c_arg c, c_tid c)) (calls s) = [(1, 5%N, 0); (0, 5%N, 1); (2, 8%N, 3); (0, 8%N, 4)] /\
+  map (fun t => (t_ev t, t_arg t, t_t0 t, t_parent t)) (trigs s) =
+    [(0, 5%N, 6, None); (2, 5%N, 9, Some (1, 0)); (0, 6%N, 17, None); (1, 8%N, 20, None); (2, 8%N, 23, Some (2, 3))] /\
+  map (fun h => (h_ev h, h_kind h, h_in h, h_died h)) (hooks s) = [(2, KCb, true, 0); (0, KLink 2, false, 15); (1, KLink 2, true, 0)] /\
+  threads s = [[]; []; []; []; []].
+Proof. exact ex_link_result. Qed.
 Example C15_ex_promise : pquiescent (prun pinit pex) /\ p_cbs (prun pinit pex) = None.
 Proof. split; [exact pex_quiescent | vm_compute; reflexivity]. Qed.
 Example C15_ex_notifier :
   In (0, ROk) (wait_results (nrun VCur ninit [NAListener 2%N; NAWait 0; NANotify 2%N; NAStep 0 CChan; NAStep 0 CCtx; NAStep 0 CCtx; NAStep 0 CCtx; NAStep 0 CCtx])).
 Proof. vm_compute. auto. Qed.
 
-Print Assumptions C15_max_trigger_count_partial.
+Print Assumptions C15_max_trigger_count_hook.
 Print Assumptions C15_max_trigger_count_quiescent.
+Print Assumptions C15_max_trigger_count_event.
+Print Assumptions C15_trigger_exactly_once.
+Print Assumptions C15_trigger_at_most_once.
+Print Assumptions C15_calls_sound.
+Print Assumptions C15_finished_calls_stable.
+Print Assumptions C15_link_no_fire_after_unhook.
+Print Assumptions C15_link_unique.
 Print Assumptions C15_promise.
 Print Assumptions C15_promise_at_most_once.
 Print Assumptions C15_promise_removed_means_unsubscribed_before_trigger.
